@@ -44,10 +44,11 @@ VARIABLES
   finals,    \* node -> `final' event of the heal phase
   healed,    \* the fault-free period has begun (deliveries are concurrent from here on)
   s5,        \* signature of known finding S5 occurred in this scenario (see KF_S5)
+  hl,        \* healthy period in force: [on, leader, maj, term]
   bad        \* set of violation records
 
 vars == <<l, meta, dur, pstate, maxterm, votes, applied, cursor, leaders, lfirst, committed,
-          reqs, hpre, stat, inv, wdone, rdone, retd, dead, mtrack, mwait, finals, healed, s5, bad>>
+          reqs, hpre, stat, inv, wdone, rdone, retd, dead, mtrack, mwait, finals, healed, s5, hl, bad>>
 
 -----------------------------------------------------------------------------
 Ev == Trace[l]
@@ -542,6 +543,27 @@ C09_CommitMajority ==
     IF badIdx # {} THEN {V("C09", "CommitWithoutVoterMajority", <<Ev.node, badIdx, Range(Ev.cfg.v)>>)} ELSE {}
 
 -----------------------------------------------------------------------------
+(* C16 -- while the scenario driver keeps leader L in prompt contact with majority M (it      *)
+(* delivers all traffic among M at once and brackets the period with `healthy' events),       *)
+(* nothing the other nodes do makes L step down or raises the term of a member of M.          *)
+NoHealthy == [on |-> FALSE, leader |-> "", maj |-> {}, term |-> 0]
+NextHl ==
+  IF Is("scenario") \/ Is("heal") THEN NoHealthy
+  ELSE IF Is("healthy") THEN
+     IF Ev.on /\ Ev.leader \in DOMAIN stat /\ stat[Ev.leader].role = 0
+       THEN [on |-> TRUE, leader |-> Ev.leader, maj |-> Range(Ev.maj), term |-> stat[Ev.leader].term]
+       ELSE NoHealthy
+  ELSE hl
+
+C16_Healthy ==
+  IF ~hl.on THEN {} ELSE
+    (IF Is("status") /\ Ev.node = hl.leader /\ (Ev.role # 0 \/ Ev.term # hl.term)
+       THEN {V("C16", "HealthyLeaderDeposed", <<hl.leader, hl.term, Ev.role, Ev.term>>)} ELSE {})
+    \cup
+    (IF Is("set_state") /\ ~Has("err") /\ Ev.node \in hl.maj /\ Ev.term > hl.term
+       THEN {V("C16", "MajorityTermIncreased", <<Ev.node, hl.term, Ev.term>>)} ELSE {})
+
+-----------------------------------------------------------------------------
 Recorder ==   \* recorder / reconstruction sanity: reported separately, never as a property violation
   (IF Is("log_append") /\ ~Has("err") /\ ~AppendContiguous(Log(Ev.node))
      THEN {V("X", "AppendNotContiguous", <<Ev.node>>)} ELSE {})
@@ -559,6 +581,7 @@ NewBad ==
              \cup C03_FutureTruth \cup C03_AtMostOnce \cup C03_RealTime \cup C03_NoInvention
              \cup C04_AckDurable \cup C04_Replay \cup C05_Reads \cup C14_Abort \cup C18_Panic \cup Recorder
              \cup C15_Converge \cup C18_Futures \cup C09_FutureTruth
+             \cup C16_Healthy
              \cup C09_CfgAgreement \cup C09_LeaderVotes \cup C09_VoteRequests \cup C09_CommitMajority
       \* violations of the replication-safety clauses after the S5 signature carry its tag
       tagged == {IF (s5 \/ KF_S5) /\ b.p \in {"C01", "C02", "C03", "C04", "C05", "C07", "C09"}
@@ -576,7 +599,7 @@ Init ==
   /\ dur = <<>> /\ pstate = <<>> /\ maxterm = <<>> /\ votes = {} /\ applied = <<>> /\ cursor = <<>>
   /\ leaders = <<>> /\ lfirst = {} /\ committed = <<>> /\ reqs = <<>> /\ hpre = <<>> /\ stat = <<>>
   /\ inv = <<>> /\ wdone = {} /\ rdone = {} /\ retd = {} /\ dead = {} /\ mtrack = <<>> /\ mwait = <<>>
-  /\ finals = <<>> /\ healed = FALSE /\ s5 = FALSE /\ bad = {}
+  /\ finals = <<>> /\ healed = FALSE /\ s5 = FALSE /\ hl = NoHealthy /\ bad = {}
 
 Next ==
   /\ l <= Len(Trace)
@@ -607,6 +630,7 @@ Next ==
   /\ finals' = (IF Is("scenario") THEN <<>> ELSE IF Is("final") THEN Put(finals, Ev.node, Ev) ELSE finals)
   /\ healed' = (IF Is("scenario") THEN FALSE ELSE IF Is("heal") THEN TRUE ELSE healed)
   /\ s5' = (IF Is("scenario") THEN FALSE ELSE s5 \/ KF_S5)
+  /\ hl' = NextHl
 
 Spec == Init /\ [][Next]_vars
 
